@@ -151,10 +151,11 @@ fn training(opts: &Opts, total: &mut Local) -> serde_json::Value {
             let mut layers = build_layers(cfgs, &store, 3);
             let gd = GradientDescent::new(0.25);
             let costf = cost.make();
-            let refs: Vec<&mut dyn corgi::layer::Layer> = layers.iter_mut().map(|b| &mut **b as &mut dyn corgi::layer::Layer).collect();
-            let mut model = Model::new(refs, &gd, &costf);
             let mut msgs: Vec<String> = Vec::new();
             let mut prev_input: Option<Array> = None;
+            {
+            let refs: Vec<&mut dyn corgi::layer::Layer> = layers.iter_mut().map(|b| &mut **b as &mut dyn corgi::layer::Layer).collect();
+            let mut model = Model::new(refs, &gd, &costf);
             let mut last_target: Option<Array> = None;
             let mut n = 0usize;
             for (si, st) in seq.iter().enumerate() {
@@ -190,6 +191,24 @@ fn training(opts: &Opts, total: &mut Local) -> serde_json::Value {
                         last_target = None;
                     }
                     Step::Update => model.update(),
+                }
+            }
+            }
+            // the model is gone, the program kept the layers: they hold their parameters and nothing else
+            if let Some(p) = prev_input.take() {
+                if run_catch(move || Vec::<Float>::from(p).len()).is_err() {
+                    msgs.push("after the model was dropped (layers kept): the last input is still referenced".to_string());
+                }
+            }
+            // a layer applied directly, its result dropped
+            for (li, ly) in layers.iter().enumerate().take(1) {
+                let xv: Vec<Float> = (0..crate::refmodel::numel(input)).map(|j| (0.25 * (j % 5) as f64 + 0.5) as Float).collect();
+                let x = Array::from((input.clone(), xv));
+                let keep = x.clone();
+                let y = ly.forward(x);
+                drop(y);
+                if run_catch(move || Vec::<Float>::from(keep).len()).is_err() {
+                    msgs.push(format!("layer {} applied directly, result dropped: the input is still referenced", li));
                 }
             }
             msgs
